@@ -71,15 +71,24 @@ class RecordingPush:
 
 
 class Rig:
-    def __init__(self, custom=None, plugins=(), resource=None, host_dir=None, push=None):
+    def __init__(self, custom=None, plugins=(), resource=None, host_dir=None, push=None, agent=None):
         from deep.config import ConfigService
         from deep.api.resource import Resource
         from deep.processor.trigger_handler import TriggerHandler
-        self.config = ConfigService(dict(custom or {}))
-        self.config.plugins = list(plugins)
-        self.config.resource = resource if resource is not None else Resource.create()
-        self.push = push if push is not None else RecordingPush(self)
-        self.handler = TriggerHandler(self.config, self.push)
+        if agent is not None:
+            # drive an assembled (not started) Deep instance: its own config and handler, deliveries recorded
+            self.config = agent.config
+            self.config.plugins = list(plugins)
+            self.config.resource = resource if resource is not None else Resource.create()
+            self.push = RecordingPush(self)
+            agent.push.push_snapshot = self.push.push_snapshot
+            self.handler = agent.trigger_handler
+        else:
+            self.config = ConfigService(dict(custom or {}))
+            self.config.plugins = list(plugins)
+            self.config.resource = resource if resource is not None else Resource.create()
+            self.push = push if push is not None else RecordingPush(self)
+            self.handler = TriggerHandler(self.config, self.push)
         self.host_dir = os.path.realpath(host_dir) if host_dir else None
         self.events = []          # host-file events only (Ev)
         self.all_events = 0
